@@ -755,9 +755,75 @@ def plan_c06(prop, tier, seed, t0):
 RELEVANT["C06"] = {"quiet"}
 
 
+def c16_mc(work, quick, violations):
+    """Every request kind, cancelled at every suspension point, with fillers that saturate the
+    mailboxes (CAP = 1): at rest every existing subscription is attached, no actor is stuck, no
+    wake-up is lost."""
+    total = {"generated": 0, "distinct": 0}
+    runs = []
+    kinds = ["delete", "publish", "pull", "ack", "nack", "create", "bpull", "stream", "tdelete"]
+    for kind in kinds:
+        procs = {"x": (kind, "s2" if kind == "create" else "s1"),
+                 "f1": ("list", "s1"), "f2": ("ack", "s1"), "pub": ("publish", "s1"), "b": ("bpull", "s1")}
+        if not quick:
+            procs["f3"] = ("pull", "s1")
+        r = V.actors_mc(os.path.join(work, "mc"), "c16_" + kind, procs, subs=("s1", "s2"), cap=1, backlog=1, max_expire=1,
+                        allow_cancel=["x"], invariants=["TypeOK", "C16_Attached", "C07_NoHang", "C07_ActorsIdle", "C06_NoLostWake"])
+        if r["stats"]:
+            total["generated"] += r["stats"]["generated"]
+            total["distinct"] += r["stats"]["distinct"]
+        runs.append({"kind": kind, "stats": r["stats"], "error": r["error"]})
+        if r["error"]:
+            path = V.save_replay("C16", 0, {"kind": "model", "error": r["error"], "config": r["config"], "trace": r["trace"],
+                                            "tlc_output_tail": r["out"][-5000:]})
+            violations.append(("model DeltioActors (%s): %s" % (kind, r["error"]), path))
+    pinned = V.actors_mc(os.path.join(work, "mc"), "c16_pinned", {"x": ("create", "s2"), "f1": ("list", "s1"), "f2": ("list", "s1")},
+                         subs=("s1", "s2"), cap=1, allow_cancel=["x"], switches={"AttachDetached": False}, invariants=["C16_Attached"])
+    if not pinned["error"]:
+        raise V.ToolError("vacuity: the model with AttachDetached=FALSE satisfies C16_Attached")
+    return {"stats": total, "runs": runs}
+
+
+def plan_c16(prop, tier, seed, t0):
+    quick = tier == "quick"
+    return scenario_check(prop, tier, seed, t0, cancel_scenarios(seed, quick=quick), mc=c16_mc,
+                          explore=[("consumers", 48, 2000), ("mixed", 32, 1000)])
+
+
+RELEVANT["C16"] = {"cancel"}
+
+
+def c12_mc(work, quick, violations):
+    total = {"generated": 0, "distinct": 0}
+    runs = []
+    configs = [
+        ("a", {"st": ("stream", "s1"), "bp": ("bpull", "s1"), "d": ("delete", "s1"), "pub": ("publish", "s1")}, 2),
+        ("b", {"st": ("stream", "s1"), "bp": ("bpull", "s1"), "d": ("delete", "s1"), "a": ("ack", "s1"), "q": ("pull", "s1")}, 1),
+    ]
+    if not quick:
+        configs.append(("c", {"st": ("stream", "s1"), "st2": ("stream", "s1"), "bp": ("bpull", "s1"), "d": ("delete", "s1"),
+                              "d2": ("delete", "s1"), "pub": ("publish", "s1"), "n": ("nack", "s1")}, 2))
+    invs = ["TypeOK", "C12_Released", "C12_Status", "C07_NoHang"]
+    for name, procs, cap in configs:
+        r = V.actors_mc(os.path.join(work, "mc"), "c12_" + name, procs, cap=cap, backlog=1, max_expire=1, invariants=invs)
+        if r["stats"]:
+            total["generated"] += r["stats"]["generated"]
+            total["distinct"] += r["stats"]["distinct"]
+        runs.append({"config": name, "stats": r["stats"], "error": r["error"]})
+        if r["error"]:
+            path = V.save_replay("C12", 0, {"kind": "model", "error": r["error"], "config": r["config"], "trace": r["trace"],
+                                            "tlc_output_tail": r["out"][-5000:]})
+            violations.append(("model DeltioActors: " + r["error"], path))
+    for sw in ("ClosedMeansNotFound", "PullWatchesDeleted"):
+        m = V.actors_mc(os.path.join(work, "mc"), "c12_pinned", configs[0][1], cap=2, backlog=1, switches={sw: False}, invariants=invs)
+        if not m["error"]:
+            raise V.ToolError("vacuity: the model with %s=FALSE satisfies the C12 invariants" % sw)
+    return {"stats": total, "runs": runs}
+
+
 def plan_c12(prop, tier, seed, t0):
     n = 64 if tier == "quick" else 2000
-    return scenario_check(prop, tier, seed, t0, c12_scenarios(n, seed), explore=[("churn", 48, 2000)])
+    return scenario_check(prop, tier, seed, t0, c12_scenarios(n, seed), mc=c12_mc, explore=[("churn", 48, 2000)])
 
 
 RELEVANT["C12"] = {"send", "s.del1"}
@@ -765,5 +831,5 @@ RELEVANT["C12"] = {"send", "s.del1"}
 PLANS = {
     "C01": plan_c01, "C02": plan_c02, "C03": plan_c03, "C04": plan_c04, "C05": plan_c05,
     "C08": plan_c08, "C09": plan_c09, "C10": plan_c10, "C11": plan_c11, "C13": plan_c13, "C15": plan_c15,
-    "C12": plan_c12, "C07": plan_c07, "C06": plan_c06,
+    "C12": plan_c12, "C07": plan_c07, "C06": plan_c06, "C16": plan_c16,
 }
